@@ -392,6 +392,24 @@ def c02_rules(view, bs):
                                "a failing %s skips examination that a succeeding one reaches (later siblings are never examined)" % _srcname(kind), bb,
                                detail="skipped blocks %s" % sorted(skipped)))
 
+    # ---- C02.ALL: every missing-field test is made whenever the map loop has been left normally
+    if missing_bbs:
+        for header, body in view.loops():
+            nx = [bb for bb in body if bb in next_bbs]
+            if not nx:
+                continue
+            kind, sbb, info, cur = _follow_switch(view, nx[0])
+            exit_t = view.variant_target(info, "None") if kind == "switch" else None
+            if exit_t is None:
+                continue
+            _, pd = ipdom_in(view, gsucc, exit_t)
+            for m in sorted(missing_bbs):
+                if m in body or not view.dominates(exit_t, m):
+                    continue
+                obligations += 1
+                if m not in pd.get(exit_t, frozenset()):
+                    out.append(finding("C02.ALL", view, "a missing-field check is skipped on some path after the members were visited (an absent field can go unreported)", m))
+
     # ---- C02.LATE: nothing is examined after an accumulator has been inspected
     for acc, ss in sorted(accs.items()):
         for bb in sorted(view.reach):
